@@ -12,6 +12,32 @@ open Garnish Garnish.Gen Garnish.Model.Parser
 def CGOK (st : PState) : Prop :=
   st.currentGroup = if st.groupStack.isEmpty then none else some (st.groupStack.size - 1)
 
+/-- the kind of the innermost frame: inside a `( )` group or not -/
+def KindOK (st : PState) (ug : Option Nat) (inG : Bool) : Prop :=
+  match ug with
+  | none => inG = false
+  | some g => ∃ G, st.nodes[g]? = some G ∧ (G.definition == Definition.group) = inG
+
+theorem KindOK.transfer {st0 st1 : PState} {ug : Option Nat} {inG : Bool} {base : Nat} (h : KindOK st0 ug inG)
+    (hb : ∀ g, ug = some g → g < base)
+    (ho : ∀ j, j < base → (st1.nodes[j]?).map (setRight none) = (st0.nodes[j]?).map (setRight none)) :
+    KindOK st1 ug inG := by
+  cases ug with
+  | none => exact h
+  | some g =>
+    obtain ⟨G, hG, hd⟩ := h
+    have := ho g (hb g rfl)
+    rw [hG] at this
+    cases h1 : st1.nodes[g]? with
+    | none => rw [h1] at this; cases this
+    | some G1 =>
+      rw [h1] at this
+      simp only [Option.map_some, Option.some.injEq] at this
+      refine ⟨G1, h1, ?_⟩
+      have : G1.definition = G.definition := by
+        cases G1; cases G; simp only [setRight, ParseNode.mk.injEq] at this; exact this.1
+      rw [this]; exact hd
+
 /-! ### plugging prefix leaves and a primary -/
 
 /-- the primary as it ends up below the node `dA` / the last prefix operator -/
@@ -171,7 +197,7 @@ def OpdOK (toks : List PToken) : Prop :=
     ∃ (st2 : PState) (sub : Tree) (cb : Nat) (P : RTree → RTree),
       loop st1 (toks ++ rest) = loop st2 rest ∧ OpdRes st1 st2 sub cb ∧
       PlugFn (dfOf st2.nodes) (aboveDef st1) sub P ∧
-      ∀ (f : Frame) (stack : List Frame) (restR : List PToken), (f.last = .op ∨ f.last = .start ∨ f.last = .optOp) →
+      ∀ (f : Frame) (stack : List Frame) (restR : List PToken), OpenLast f.last →
         refLoop Table.gen f stack pos (toks ++ restR) =
           refLoop Table.gen { f with cur := P f.cur, last := .operand, ws := false, prevSep := false } stack
             (pos + toks.length) restR
@@ -235,18 +261,24 @@ theorem opd_atom (pre : List PToken) (a : PToken) (hpre : ∀ p ∈ pre, isPrefi
       rw [← hp, List.append_assoc, prefix_runB pre st1 ug ([a] ++ rest) hO hpre (by simp)]
       simp only [List.cons_append, List.nil_append, loop, h2, Outcome.bind]
   · -- the operand
+    have hin2 : (chainR st1.nodes.size (pre.map (·.col)) X).inorder = List.range' st1.nodes.size (pre.length + 1) := by
+      rw [chainR_inorder, List.length_map]
+      simp only [X, Tree.inorder, List.nil_append]
+      rw [List.range'_concat, Nat.one_mul]
     refine ⟨?_, by omega, htree, ?_, n2, by rw [g2, hgsP], by rw [cg2, hcgP], ?_, ?_, ?_, ?_,
       ⟨_, _, by rw [ll2, hsz], hleaf, Or.inl (prio10_valueLike (underDef_prio hqa))⟩⟩
     · intro j hj
       rw [hlt2 j (by omega), pushP_below pre st1 j hj]
-    · rw [chainR_inorder, List.length_map, hs2]
-      simp only [X, Tree.inorder, List.nil_append]
-      have e : st1.nodes.size + pre.length + 1 - st1.nodes.size = pre.length + 1 := by omega
-      rw [e, List.range'_concat]
-      simp
+    · rw [hin2, hs2]
+      exact sortedIn_range' _ _ _ (by omega)
     · have hb : Bot st2 (chainR st1.nodes.size (pre.map (·.col)) X) st2.nodes.size := by
-        refine .plain (by rw [ll2, hsz, hs2]; rfl) ⟨_, by rw [hs2, Nat.add_sub_cancel]; exact hleaf, rfl, ?_⟩
-        exact prio10_not_groupLike (underDef_prio hqa)
+        refine .plain (by rw [ll2, hsz, hs2]; rfl) ⟨_, by rw [hs2, Nat.add_sub_cancel]; exact hleaf, rfl, ?_⟩ ?_ ?_
+        · exact prio10_not_groupLike (underDef_prio hqa)
+        · rw [hin2, hs2, List.getLast?_range']; simp
+        · intro nd hnd
+          rw [hs2, Nat.add_sub_cancel, hleaf] at hnd
+          injection hnd with hnd; rw [← hnd]
+          rcases hsa with h | h <;> rw [h] <;> rfl
       exact hb
     · apply spineG_chainR _ _ _ _ _ (by intro i hi; rw [List.length_map] at hi; rw [hpdef i hi]
                                         have := hpre _ (List.getElem_mem hi)
